@@ -632,3 +632,21 @@ Definition result_of_plan (md : mode) (bs : Z) (p : plan) : sres (bool * list ac
       | _ => SRaised l 0
       end
   end.
+
+(* -- the helper functions of the script themselves: what their globs return.  The <name> directory level is abstracted:
+   a glob for one file name under a job directory has at most one match (thetas*.h5 / distance_matrix_chunk*.h5: only
+   whether there is a match is used).  A screen_metadata.json / selected_plate file is the value the script reads from it. *)
+Definition glob_in_plate (p : plate_path) (k : kind) : list spath :=       (* under a globbed plate directory *)
+  if produced (snd p) k then [SFile (fst p) k] else [].
+Definition glob_meta (p : plate_path) : list Z :=
+  match f_meta (snd p) with Some m => [m] | None => [] end.
+Definition job_path := (fs * step)%type.        (* a path BUILT by os.path.join, with the tree it is resolved in *)
+Definition glob_in_job (p : job_path) (k : kind) : list spath :=
+  match get_plate (fst p) (snd p) with
+  | Some d => if produced d k then [SFile (snd p) k] else []
+  | None => []
+  end.
+Definition iter_job_path := (fs * Z)%type.      (* outdir/iter_<i> built by os.path.join, with the tree *)
+Definition glob_selected (p : iter_job_path) : list Z := selected_plates (fst p) (snd p).
+(* l[0]: IndexError on an empty list *)
+Definition shead {A} (l : list A) : sres A := match l with a :: _ => SOk a | [] => SRaised [] 98 end.
